@@ -2520,13 +2520,11 @@ static void compile_function(CG *cg, ASTNode *fn_node) {
         }
     }
 
-    /* Ensure function always returns (implicit return void) */
-    if (cg->code_size == 0 || cg->code[cg->code_size - 1] != OP_RET) {
-        /* Check last instruction - a rough check on the opcode byte.
-         * If the last emitted instruction wasn't RET, add implicit return. */
-        emit_op(cg, OP_PUSH_VOID);
-        emit_op(cg, OP_RET);
-    }
+    /* Ensure function always returns (implicit return void).  The end of the code can be
+     * reachable even when the last instruction is a RET (a jump over a trailing
+     * `if c { return }` lands here), so the epilogue is emitted unconditionally. */
+    emit_op(cg, OP_PUSH_VOID);
+    emit_op(cg, OP_RET);
 
     if (cg->had_error) return;
 
